@@ -23,7 +23,7 @@ from vt.monitors import contracts, forkserver, prng
 ID = 'C14'
 TIERS = {
     'quick': dict(shards=16, cases=300, watchdog_s=900),
-    'thorough': dict(shards=16, cases=8000, big=1, watchdog_s=6000),
+    'thorough': dict(shards=16, cases=8000, big=1, switched_off=16, watchdog_s=6000),
 }
 RULE = ('case = history of ~25 extractions over one multiset: forms {list, 2 permutations, reversed, dict, dict in '
         'another insertion order, Series, one example repeated} x prior PRNG states x {seed, no seed}, with '
@@ -34,7 +34,7 @@ ASSUMPTIONS = [
     "'repeating an example changes nothing' is asserted without pruning options (frequencies legitimately matter to min_strings_per_pattern/max_patterns)",
     'Series input is compared only under default options (pdextract accepts none) and, as pdextract de-duplicates, against the list of distinct strings',
 ]
-REQUIRED_MONITORS = ['runs:fresh_interpreters', 'prng:seeded_calls', 'prng:sampling_calls_observed', 'groups:compared', 'runs:forked']
+REQUIRED_MONITORS = ['sizes:sampling_switched_off_beyond_4000', 'runs:fresh_interpreters', 'prng:seeded_calls', 'prng:sampling_calls_observed', 'groups:compared', 'runs:forked']
 REQUIRED_CLASSES = ['seed=1', 'seed=0', 'sampling=1', 'sampling=0']
 
 
@@ -56,7 +56,7 @@ def gen_case(rng, i):
         while len(set(c['xs'])) < 8:
             c['xs'] = c['xs'] + S.multiset(rng, n=10)
     elif not isinstance(c['size'], dict) or RC.effective_sampling(c):
-        c['size'] = None
+        c['size'] = False if c['size'] is False else None        # (False / 0: the documented "don't use sampling")
     c['seed'] = rng.choice([0, 1, 7, 12345, -1, 2 ** 40]) if i % 4 < 2 else None
     c['priors'] = [rng.randrange(10 ** 6) for _ in range(2)]
     c['perm'] = rng.randrange(10 ** 6)
@@ -82,6 +82,8 @@ def variants(case):
         out.append(('dict', xs, 'extract-bytes-dict'))       # extract(..., encoding=) on encoded examples: the same multiset
         out.append(('perm', p1, 'extract-bytes-list'))
         out.append(('dict', xs, 'extract-dict'))
+    if case.get('few_variants'):
+        return out[:2]
     j = pr.randrange(len(xs)) if xs else 0
     pruned = case['kw'].get('max_patterns') is not None or (case['kw'].get('min_strings_per_pattern') or 1) > 1
     if xs and not pruned:      # (how often an example occurs legitimately matters to the pruning options)
@@ -204,6 +206,12 @@ def run_case(ctx, case):
                 break
         if ns:
             rec.event('prng:sampling_calls_observed')
+    if case['size'] is False and any(x[4] for x in results):
+        # size=0 / size=False is documented as "don't use sampling": no draw from the PRNG may be observed, however many strings
+        rec.violation('sampled_although_sampling_is_switched_off', {
+            'case': dict(case, xs=case['xs'][:20] + ['... %d strings' % len(case['xs'])]), 'mech': dict(mech, n_over_4000=len(set(case['xs'])) > 4000),
+            'facts': {'sample_calls': [x[4] for x in results][:6], 'results': [x[2][:4] for x in results][:4]}})
+        return
     if seeded:
         comparable = results
     else:
@@ -243,6 +251,19 @@ def run_shard(ctx):
     forkserver.warm()
     for i in range(ctx.params['cases']):
         run_case(ctx, gen_case(ctx.rng, i))
+    if ctx.shard < ctx.params.get('switched_off', 2):
+        # more strings than the default sizes take whole (4000 distinct), sampling switched off by size=0: ids of one shape and a
+        # few of another, with extra letters of which one occurs in the rare shape only
+        rng = ctx.rng
+        n = rng.choice([4100, 4400, 6000])
+        xs = ['id_%04d' % k for k in range(n)] + rng.choice([['id-x'], ['id-x', 'id-y'], ['zz-9']])
+        rng.shuffle(xs)
+        c = {'xs': xs, 'form': 'list', 'kw': dict(tag=False, strip=False, remove_empties=False, extra_letters='_-',
+                                                   variableLengthFrags=rng.random() < 0.5, dialect=rng.choice(RC.DIALECTS)),
+             'size': False, 'seed': None, 'pools': ['big'], 'priors': [rng.randrange(10 ** 6) for _ in range(2)], 'perm': rng.randrange(10 ** 6),
+             'warm': rng.randrange(10 ** 6), 'few_variants': True}
+        run_case(ctx, c)
+        ctx.rec.event('sizes:sampling_switched_off_beyond_4000')
     if ctx.params.get('big'):
         from vt.checks import c03
         c = c03.big_case(ctx.rng, 4300)
